@@ -514,7 +514,8 @@ func (p *connectedPlayer) nextServerToTry(current RegisteredServer) RegisteredSe
 	}
 
 	sameName := func(rs RegisteredServer, name string) bool {
-		return rs.ServerInfo().Name() == name
+		// Server names are case-insensitive in the registry (see Proxy.Server).
+		return strings.EqualFold(rs.ServerInfo().Name(), name)
 	}
 
 	for i := p.tryIndex; i < len(p.serversToTry); i++ {
